@@ -5,7 +5,9 @@ CAND = "/verif/work/cand"; RES = "/verif/work/seed_results"; OUT = "/verif/seede
 props = {json.loads(l)["id"]: json.loads(l) for l in open("/verif/properties.jsonl")}
 rows = []
 for p in sorted(os.listdir(CAND)):
-    for k in (1, 2):
+    for k in (1, 2, 3, 4):
+        if not os.path.exists(f"{CAND}/{p}/m{k}.diff"):
+            continue
         sid = f"{p}-m{k}"
         d = os.path.join(OUT, sid)
         os.makedirs(d, exist_ok=True)
@@ -22,10 +24,18 @@ for p in sorted(os.listdir(CAND)):
         whats = sorted(set(re.findall(r"^\s+\d+\s{3}(.*)$", res, re.M)))[:4]
         files = sorted(set(re.findall(r"^[+-]{3} [ab]/(\S+)", open(f"{d}/patch.diff").read(), re.M)))
         first = next((l.strip() for l in notes.splitlines() if l.strip()), "")
-        note = ""
-        if sid == "C13-m2":
-            note = ("needs a bind of two never-bound vertices while 14 groups are alive (a 15th group), which is outside the limits every property is quantified "
-                    "over; the check rightly stays silent")
+        NOTES = {
+            "C13-m2": "OUT OF DOMAIN: needs a bind of two never-bound vertices while 14 groups are alive (a 15th group), outside the limits every property is quantified over "
+                      "(\"at most 14 groups alive at once\"); the check rightly stays silent",
+            "C13-m3": "OUT OF DOMAIN: needs an earlier merge() of a NON-TREE right graph (join() vacates a slot); merge.rs documents non-tree graphs as \"unpredictable\" and every "
+                      "property assumes the documented preconditions; the check rightly stays silent",
+            "C05-m3": "OUT OF DOMAIN: same as C13-m3 - only after a non-tree merge (join() vacated slot) does next_id() count slots instead of ids",
+            "C04-m3": "BREAKS C02, NOT C04: the vertex is never collected (it stays in keys()), so the later add() is an add on a PRESENT vertex and rightly changes nothing; "
+                      "reported by ./check C02 (alive set differs), C04 as stated still holds",
+            "C04-m4": "BREAKS C02, NOT C04: next_id() itself makes the id present (it shows up in keys() before any add), so the later add() is an add on a present vertex; "
+                      "reported by ./check C02 and C05 runs (alive set differs right at the next_id call)",
+        }
+        note = NOTES.get(sid, "")
         meta = {"id": sid, "property": p, "property_title": props[p]["title"], "summary": first[:300], "files_changed": files,
                 "needs_to_manifest": "see notes.txt (written by the sub-agent that produced the change)",
                 "confirmed_in_scratch_worktree": {"applies_and_builds": c.get("build_rc") == "0", "builds_with_hook_feature": c.get("build_verif_rc") == "0",
@@ -38,10 +48,10 @@ for p in sorted(os.listdir(CAND)):
         json.dump(meta, open(f"{d}/meta.json", "w"), indent=1, ensure_ascii=False)
         rows.append((sid, p, "reported (exit 1)" if rc == 1 else "silent (exit 0)" if rc == 0 else f"rc={rc}", "; ".join(w.split("  [")[0] for w in whats)[:150], ", ".join(sorted({w.split("[")[-1].rstrip("]").split(" N=")[0] for w in whats if "[" in w}))[:90], note[:80]))
 with open(f"{OUT}/RESULTS.md", "w") as f:
-    f.write("# Seeded changes and what the checks said (quick tier)\n\nEach change was written by a sub-agent that saw only the property text; each is confirmed (builds, suite passes, "
+    f.write("# Seeded changes and what the checks said (quick tier)\n\nEach change was written by a sub-agent that saw only the property text (m3/m4: also short descriptions of m1/m2 of the same property, to avoid duplicates); each is confirmed (builds, suite passes, "
             "demo fails with / passes without). `tools/seedrun.sh <id> seeded/<id>/patch.diff <Cxx>` reproduces a row.\n\n| id | property | check result | what was reported | found by | note |\n|---|---|---|---|---|---|\n")
     for r in rows:
         f.write("| " + " | ".join(r) + " |\n")
     n = sum(1 for r in rows if r[2].startswith("reported"))
-    f.write(f"\n{n} of {len(rows)} reported by the check of the property they were written for.\n")
+    f.write(f"\n{n} of {len(rows)} reported by the check of the property they were written for; the others carry a note (out of the properties' domain, or breaking another property whose check reports them).\n")
 print(len(rows), "seeded dirs;", sum(1 for r in rows if r[2].startswith("reported")), "reported")
